@@ -357,7 +357,7 @@ func runProperty(w *World, o *checkOpts) *Report {
 	if !o.keep {
 		defer os.RemoveAll(qdir)
 	}
-	quick, full := 3, 10
+	quick, full := 3, 15
 	if o.tier == "thorough" {
 		quick, full = 5, 60
 	}
